@@ -116,8 +116,8 @@ def _set(j, path, new):
 
 def perturb(j, rng):
     """one edit of a document that a hand-written client could make: reorder keys / drop a key / add an unknown key /
-    repeat a key (same or another value, anywhere in the object) / null a value / change a scalar's kind (integers up to 2^53
-    included: serde reads them where a float is expected) / drop or add an array element / write an object as the array of its values"""
+    repeat a key (same or another value, anywhere in the object) / null a value / change a scalar's kind (integers of any size
+    included: serde reads them as the nearest float where a float is expected) / drop or add an array element / write an object as the array of its values"""
     paths = list(_paths(j))
     objs = [p for p in paths if isinstance(_get(j, p), tuple) and _get(j, p)[1]]
     arrs = [p for p in paths if isinstance(_get(j, p), list)]
@@ -162,7 +162,9 @@ def perturb(j, rng):
     p = rng.choice(paths)
     if kind == "null":
         return _set(j, p, None), "null"
-    return _set(j, p, rng.choice(["str", True, "1:0-1", [], ["a", "b"], "Null", 1.5, 0, 3, -3, 2 ** 53, -(2 ** 53), 12345678901])), "scalar"
+    return _set(j, p, rng.choice(["str", True, "1:0-1", [], ["a", "b"], "Null", 1.5, 0, 3, -3, 2 ** 53, -(2 ** 53), 12345678901, 2 ** 53 + 1, 2 ** 53 + 3, -(2 ** 53) - 1,
+                                   9999999999999999, 12345678901234567, 2 ** 63, 2 ** 64 - 1, 2 ** 64, -(2 ** 63) - 1, 123456789012345678901234567890, 10 ** 400,
+                                   rng.randrange(2 ** 53, 2 ** 64), -rng.randrange(2 ** 53, 2 ** 63)])), "scalar"
 
 
 def canon_maps(v):
